@@ -36,6 +36,13 @@ MUTANTS += [
 ]
 
 
+MUTANTS += [
+    ("find_by_origin_skips_terminals", "src/fandango/language/tree.py", "                for child in [*self._children, *self._sources]\n            ],\n            [],\n        )\n        for o_node_id",
+     "                for child in [*self._children, *self._sources]\n                if child.symbol.is_non_terminal\n            ],\n            [],\n        )\n        for o_node_id", "DerivationTree.find_by_origin"),
+    ("find_by_origin_children_only", "src/fandango/language/tree.py", "                child.find_by_origin(node_id)\n                for child in [*self._children, *self._sources]\n",
+     "                child.find_by_origin(node_id)\n                for child in self._children\n", "DerivationTree.find_by_origin"),
+]
+
 G = "src/fandango/language/grammar/grammar.py"
 MUTANTS += [
     ("generate_replaces_unparsable_value", G, "        if tree is None:\n            raise FandangoParseError(\n                f\"Could not parse {string!r} (generated by {self.generators[symbol]}) into {symbol.format_as_spec()}\"\n            )\n",
